@@ -73,6 +73,9 @@ pub struct C08;
 
 impl Property for C08 {
     type Case = HistCase;
+    fn freeze(&self, case: &HistCase) -> HistCase {
+        crate::props::hist::freeze_hist(case)
+    }
     fn id(&self) -> &'static str {
         "C08"
     }
@@ -292,6 +295,9 @@ pub struct C12;
 
 impl Property for C12 {
     type Case = HistCase;
+    fn freeze(&self, case: &HistCase) -> HistCase {
+        crate::props::hist::freeze_hist(case)
+    }
     fn id(&self) -> &'static str {
         "C12"
     }
@@ -477,6 +483,9 @@ pub struct C21;
 
 impl Property for C21 {
     type Case = HistCase;
+    fn freeze(&self, case: &HistCase) -> HistCase {
+        crate::props::hist::freeze_hist(case)
+    }
     fn id(&self) -> &'static str {
         "C21"
     }
@@ -586,6 +595,9 @@ pub struct C22;
 
 impl Property for C22 {
     type Case = HistCase;
+    fn freeze(&self, case: &HistCase) -> HistCase {
+        crate::props::hist::freeze_hist(case)
+    }
     fn id(&self) -> &'static str {
         "C22"
     }
